@@ -6,59 +6,120 @@ From Coq Require Import Lia.
 
 Local Open Scope Z_scope.
 
-Lemma wf_init src : wf src (init src).
-Proof. exists []. cbn. repeat split. Qed.
+Lemma wf_init src : wf (src, []) (init src).
+Proof. split; [exists []; cbn; repeat split|exists []; reflexivity]. Qed.
 
-Lemma wf_true_pos src x : wf src x -> true_pos src (off x) = (line x, col x).
+Lemma wf_true_pos src x : wf src x -> true_pos (fst src) (off x) = (line x, col x).
 Proof.
-  intros [pre [H1 [H2 H3]]]. unfold true_pos. rewrite H1, H2, firstn_app_exact. now rewrite H3.
+  intros [[pre [H1 [H2 H3]]] _]. unfold true_pos. rewrite H1, H2, firstn_app_exact. now rewrite H3.
 Qed.
+
+(* the same state is well formed relative to its own diagnostics *)
+Lemma wf_rebase src E x : wf (src, E) x -> wf (src, errs x) x.
+Proof. intros [H _]. split; [exact H|exists []; reflexivity]. Qed.
 
 Section Main.
   Variable uw ud : N -> bool.
   Variable src : str.
 
-  Lemma lex_loop_no_hang : forall fuel x acc, wf src x -> (List.length (rest x) < fuel)%nat ->
+  Lemma lex_loop_no_hang : forall fuel E x acc, wf (src, E) x -> (List.length (rest x) < fuel)%nat ->
     lex_loop uw ud fuel x acc <> Hang.
   Proof.
-    induction fuel as [|fuel IH]; intros x acc Hw Hf; [lia|]. cbn [lex_loop].
-    pose proof (step_post_holds src uw ud x Hw) as H.
+    induction fuel as [|fuel IH]; intros E x acc Hw Hf; [lia|]. cbn [lex_loop].
+    pose proof (step_post_holds (src, E) uw ud x Hw) as H.
     destruct (step uw ud x) as [|i x'|e]; [discriminate| |discriminate].
-    cbn in H. destruct H as [Hw' [Ho _]]. apply IH; [assumption|].
-    pose proof (wf_len _ _ Hw). pose proof (wf_len _ _ Hw'). lia.
+    cbn in H. destruct H as [Hw' [Ho _]]. apply (IH E); [assumption|].
+    pose proof (wf_len _ _ Hw). pose proof (wf_len _ _ Hw'). cbn [fst] in *. lia.
   Qed.
 
   Theorem lex_no_hang : lex uw ud src <> Hang.
-  Proof. unfold lex. apply lex_loop_no_hang; [apply wf_init|cbn; lia]. Qed.
+  Proof. unfold lex. apply (lex_loop_no_hang _ []); [apply wf_init|cbn; lia]. Qed.
 
-  Lemma lex_loop_spec : forall fuel x acc items xf, wf src x ->
-    lex_loop uw ud fuel x acc = Ok (items, xf) ->
-    exists new, items = rev acc ++ new /\ spans_tile new (off x) (List.length src) = true /\
-                c09_ok src new = true /\ wf src xf /\ rest xf = [].
+  (* a bad-lexeme step records its diagnostic *)
+  Lemma step_bad_records E x lo x' : wf (src, E) x -> step uw ud x = StepItem (IBad lo) x' ->
+    exists d, In d (errs x') /\ d_name d = s "BAD_LEXEME" /\
+              d_hls d = [mkhl (line x) (col x) (Some 1) None].
   Proof.
-    induction fuel as [|fuel IH]; intros x acc items xf Hw; cbn [lex_loop]; [discriminate|].
-    pose proof (step_post_holds src uw ud x Hw) as H.
-    destruct (step uw ud x) as [|i x'|e]; [| |discriminate].
-    - intros E; inversion E; subst. exists []. cbn in H. rewrite app_nil_r.
-      repeat split; try assumption. cbn. apply Nat.eqb_eq. pose proof (wf_len _ _ Hw). rewrite H in H0. cbn in H0. lia.
-    - cbn in H. destruct H as [Hw' [Ho [Hlo [Hhi Hpos]]]]. intros E.
-      destruct (IH x' (i :: acc) items xf Hw' E) as [new [H1 [H2 [H3 [H4 H5]]]]].
-      exists (i :: new). cbn [rev] in H1. rewrite <- app_assoc in H1. cbn in H1.
-      split; [exact H1|]. split.
-      + cbn [spans_tile]. rewrite Hlo, Hhi, Nat.eqb_refl. cbn [andb].
-        replace (Nat.ltb (off x) (off x')) with true by (symmetry; apply Nat.ltb_lt; lia). exact H2.
-      + split; [|split; assumption]. unfold c09_ok. cbn [forallb]. fold (c09_ok src new). rewrite H3, andb_true_r.
-        destruct i as [t lo hi|lo|lo hi]; cbn [c09_item_ok]; try reflexivity.
-        cbn [item_lo] in Hlo. subst lo. unfold c09_tok_ok. rewrite (wf_true_pos _ _ Hw).
-        destruct Hpos as [-> ->]. now rewrite !Z.eqb_refl.
+    intros Hw. unfold step. destruct (rest x) as [|c r].
+    - destruct (try_parsers uw ud parsers x); discriminate.
+    - destruct (at_splice (c :: r)).
+      + destruct (peek1 (c :: r)) as [[? ?]|]; discriminate.
+      + destruct (try_parsers uw ud parsers x); try discriminate.
+        cbv zeta. intros H; inversion H; subst. eexists. split; [left; reflexivity|]. split; reflexivity.
   Qed.
 
-  (* C09 + the tiling half of C10, for every input string *)
+  Lemma wf_skipn E x : wf (src, E) x -> skipn (off x) src = rest x.
+  Proof.
+    intros [[pre [H1 [H2 _]]] _]. cbn [fst] in H1. rewrite H1, H2.
+    rewrite skipn_app, skipn_all, Nat.sub_diag. reflexivity.
+  Qed.
+
+  (* a skip step consumed exactly one line splice *)
+  Lemma step_skip_splice E x lo hi x' : wf (src, E) x -> step uw ud x = StepItem (ISkip lo hi) x' ->
+    is_splice (sub src lo hi) = true.
+  Proof.
+    intros Hw. unfold step. destruct (rest x) as [|c r] eqn:Er.
+    - destruct (try_parsers uw ud parsers x); discriminate.
+    - destruct (at_splice (c :: r)) eqn:Es.
+      + destruct (at_splice_cases _ Es) as [[r' Ec]|[r' Ec]]; rewrite Ec.
+        * rewrite peek1_splice1. intros H; inversion H; subst. unfold sub. cbn [advance set_pos off].
+          replace (off x + 2 - off x)%nat with 2%nat by lia. rewrite (wf_skipn _ _ Hw), Er, Ec. reflexivity.
+        * rewrite peek1_splice2. intros H; inversion H; subst. unfold sub. cbn [advance set_pos off].
+          replace (off x + 4 - off x)%nat with 4%nat by lia. rewrite (wf_skipn _ _ Hw), Er, Ec. reflexivity.
+      + destruct (try_parsers uw ud parsers x); discriminate.
+  Qed.
+
+  Definition item_reported (ds : list diag) (i : item) : bool :=
+    match i with
+    | IBad lo => bad_reported src ds lo
+    | ISkip lo hi => is_splice (sub src lo hi)
+    | ITok _ _ _ => true
+    end.
+
+  Lemma lex_loop_spec : forall fuel E x acc items xf, wf (src, E) x ->
+    lex_loop uw ud fuel x acc = Ok (items, xf) ->
+    exists new, items = rev acc ++ new /\ spans_tile new (off x) (List.length src) = true /\
+                c09_ok src new = true /\ wf (src, E) xf /\ rest xf = [] /\
+                forallb (item_reported (errs xf)) new = true.
+  Proof.
+    induction fuel as [|fuel IH]; intros E x acc items xf Hw; cbn [lex_loop]; [discriminate|].
+    pose proof (step_post_holds (src, E) uw ud x Hw) as H.
+    destruct (step uw ud x) as [|i x'|e] eqn:Est; [| |discriminate].
+    - intros Eq; inversion Eq; subst. exists []. cbn in H. rewrite app_nil_r.
+      repeat split; try assumption; try reflexivity; try (destruct Hw; assumption).
+      cbn. apply Nat.eqb_eq. pose proof (wf_len _ _ Hw). rewrite H in H0. cbn in H0. lia.
+    - cbn in H. destruct H as [Hw' [Ho [Hlo [Hhi Hpos]]]]. intros Eq.
+      destruct (IH E x' (i :: acc) items xf Hw' Eq) as [new [H1 [H2 [H3 [H4 [H5 H6]]]]]].
+      exists (i :: new). cbn [rev] in H1. rewrite <- app_assoc in H1. cbn in H1.
+      split; [exact H1|]. split.
+      { cbn [spans_tile]. rewrite Hlo, Hhi, Nat.eqb_refl. cbn [andb].
+        replace (Nat.ltb (off x) (off x')) with true by (symmetry; apply Nat.ltb_lt; lia). exact H2. }
+      split.
+      { unfold c09_ok. cbn [forallb]. fold (c09_ok src new). rewrite H3, andb_true_r.
+        destruct i as [t lo hi|lo|lo hi]; cbn [c09_item_ok]; try reflexivity.
+        cbn [item_lo] in Hlo. subst lo. unfold c09_tok_ok.
+        pose proof (wf_true_pos _ _ Hw) as Htp. cbn [fst] in Htp. rewrite Htp.
+        destruct Hpos as [-> ->]. now rewrite !Z.eqb_refl. }
+      split; [exact H4|]. split; [exact H5|].
+      cbn [forallb]. rewrite H6, andb_true_r.
+      destruct i as [t lo hi|lo|lo hi]; cbn [item_reported]; try reflexivity;
+        [|exact (step_skip_splice E x lo hi x' Hw Est)].
+      (* the diagnostic recorded by this step is still there at the end *)
+      destruct (step_bad_records E x lo x' Hw Est) as [d [Hd [Hn Hh]]].
+      destruct (IH (errs x') x' (IBad lo :: acc) items xf (wf_rebase _ _ _ Hw') Eq) as [_ [_ [_ [_ [[_ [nw Hext]] _]]]]].
+      cbn [snd] in Hext. unfold bad_reported. cbn [item_lo] in Hlo. subst lo.
+      pose proof (wf_true_pos _ _ Hw) as Htp. cbn [fst] in Htp. rewrite Htp.
+      apply existsb_exists. exists d. split; [rewrite Hext; apply in_or_app; now right|].
+      rewrite Hn, Hh. cbn. rewrite !Z.eqb_refl. reflexivity.
+  Qed.
+
+  (* C09, the tiling half of C10 and "no character is silently discarded", for every input string *)
   Theorem lex_positions_and_tiling items xf : lex uw ud src = Ok (items, xf) ->
-    spans_tile items 0 (List.length src) = true /\ c09_ok src items = true /\ rest xf = [] /\ off xf = List.length src.
+    spans_tile items 0 (List.length src) = true /\ c09_ok src items = true /\ rest xf = [] /\
+    off xf = List.length src /\ forallb (item_reported (errs xf)) items = true.
   Proof.
     unfold lex. intros E.
-    destruct (lex_loop_spec _ _ _ _ _ (wf_init src) E) as [new [H1 [H2 [H3 [H4 H5]]]]].
+    destruct (lex_loop_spec _ _ _ _ _ _ (wf_init src) E) as [new [H1 [H2 [H3 [H4 [H5 H6]]]]]].
     cbn in H1. subst items. repeat split; try assumption.
     pose proof (wf_len _ _ H4). rewrite H5 in H. cbn in H. lia.
   Qed.
